@@ -17,12 +17,18 @@
      - without a method filter the base services of the output resolve ([trimmed_base_ok]).
    [trim_resolves_with] has the three output conditions as hypotheses;
    [trim_resolves_given_bases_and_idents] discharges the include depth (every configuration),
-   [trim_resolves_no_filter] also the base services: what remains is the hypothesis on
-   identifiers used as values ([cv_idents_ok (ident_ok q)]: exactly one explanation). *)
+   [trim_resolves_no_filter] also the base services;
+     - every identifier used as a value keeps exactly one explanation ([trimmed_idents_ok]:
+       for a file of the output the number of explanations is the same in both programs —
+       constants, enums and typedefs are never deleted, the enum a definition stands for is
+       preserved ([enum_values_of_q]), and an include that was deleted leads to a file without
+       constants, enums and typedefs, which explains nothing).
+   Final statements: [trim_resolves_given_bases] (every configuration; base services of the
+   output remain a hypothesis) and [trim_resolves_without_filter] (no hypothesis on the output). *)
 From Coq Require Import List Bool Arith NArith ZArith Lia.
 From Coq.Strings Require Import Byte.
 From Verif Require Import Base.Bytes Idl.Ast Idl.AstUtil Idl.AstFacts Idl.Trim Idl.TrimSpec Idl.TrimFacts.
-From Verif Require Import Idl.ResolveSpec Idl.ResolvableSpec Idl.ResolvableConst Idl.ResolvePath Idl.ResolveInv Idl.ResolveLemmas.
+From Verif Require Import Idl.ResolveSpec Idl.ResolvableSpec Idl.ResolvableConst Idl.ResolvePath Idl.ResolveInv Idl.ResolveLemmas Idl.ResolveDeref.
 From Verif Require Idl.Resolve Idl.ResolveCompleteConst.
 Import ListNotations.
 
@@ -1080,3 +1086,334 @@ Section Final.
     intros F qf Hq. eapply (trimmed_base_ok matches cp c p q fin Hwf Hm Hr Hres Hocc Hkinds Hnf Hsv); exact Hq.
   Qed.
 End Final.
+
+
+(* ==================================================================== *)
+(* ---------------------------------------------------------------- identifiers used as values *)
+
+Lemma denotes_enum_def P :
+  (forall fn n d, def_denotes P fn n d -> forall efn x, d = TEnum efn x -> exists vs, def_of P efn x = Some (DkEnum vs)) /\
+  (forall fn n d, name_denotes P fn n d -> forall efn x, d = TEnum efn x -> exists vs, def_of P efn x = Some (DkEnum vs)).
+Proof.
+  apply (denotes_mutind P
+           (fun fn n d => forall efn x, d = TEnum efn x -> exists vs, def_of P efn x = Some (DkEnum vs))
+           (fun fn n d => forall efn x, d = TEnum efn x -> exists vs, def_of P efn x = Some (DkEnum vs))).
+  - intros fn n vs Hd efn x [= <- <-]. eauto.
+  - intros fn n k Hd efn x E. discriminate.
+  - intros fn n tgt d Hd _ IH. exact IH.
+  - intros fn n c0 Hb efn x E. discriminate.
+  - intros fn n a d Hb Hs _ IH. exact IH.
+  - intros fn f n pre m i gn d Hb Hs Hf Hi _ IH. exact IH.
+Qed.
+
+Lemma denote_fuel_S P : exists k, denote_fuel P = S (S k).
+Proof. unfold denote_fuel. eexists. rewrite Nat.add_comm. reflexivity. Qed.
+
+Lemma denote_builtin k P fn n cb : builtin_category n = Some cb -> denote (S k) P fn n = Some (TBuiltin cb).
+Proof. intros H. cbn [denote]. rewrite H. reflexivity. Qed.
+
+Section Idents.
+  Variable matches : bytes -> bytes -> bool.
+  Variable cp : bytes -> bool.
+  Variable c : cfg.
+  Variable p q : program.
+  Variable fin : mstate.
+  Hypothesis Hwf : wf p.
+  Hypothesis Hm : mark_ast matches cp c p (prog_size p) = Ok fin.
+  Hypothesis Hr : reach cp c p false (prog_size p) fin (main_name p) [] = Ok q.
+  Hypothesis Hres : resolvable p = true.
+  Hypothesis Hocc : forall fn f, prog_file p fn = Some f -> forall t, In t (file_occs f) -> occ_good p fn f t.
+  Hypothesis Hkinds : forall fn f k s, prog_file p fn = Some f -> In s (sl_list k f) -> sl_category s = k.
+
+  Let keep_always := q_def_keep_always matches cp c p q fin Hwf Hm Hr Hres Hocc Hkinds.
+  Let def_sub := q_def_sub' matches cp c p q fin Hwf Hm Hr Hres Hocc Hkinds.
+
+  (* definitions that are never deleted are the same in both programs, for a file of the output *)
+  Lemma def_always G gq k : In (G, gq) q -> (forall s, k <> DkStruct s) -> k <> DkService ->
+    forall a, def_of q G a = Some k <-> def_of p G a = Some k.
+  Proof.
+    intros Hq H1 H2 a. split; [apply def_sub|].
+    intros Hd. destruct (q_entry cp c p q fin Hr _ _ Hq) as [pg [Hpg _]]. eapply keep_always; eauto.
+  Qed.
+
+  Lemma const_count_q G gq v : In (G, gq) q -> const_count q G v = const_count p G v.
+  Proof.
+    intros Hq. unfold const_count.
+    destruct (def_of p G v) as [k|] eqn:Dp.
+    - destruct (def_of q G v) as [k'|] eqn:Dq.
+      + apply def_sub in Dq. rewrite Dp in Dq. injection Dq as ->. reflexivity.
+      + destruct k; try reflexivity.
+        assert (def_of q G v = Some DkConst) as X; [|congruence].
+        apply (def_always G gq DkConst Hq); [intros; discriminate | discriminate | exact Dp].
+    - destruct (def_of q G v) as [k'|] eqn:Dq; [|reflexivity]. apply def_sub in Dq. congruence.
+  Qed.
+End Idents.
+
+
+(* ==================================================================== *)
+Section Idents2.
+  Variable matches : bytes -> bytes -> bool.
+  Variable cp : bytes -> bool.
+  Variable c : cfg.
+  Variable p q : program.
+  Variable fin : mstate.
+  Hypothesis Hwf : wf p.
+  Hypothesis Hm : mark_ast matches cp c p (prog_size p) = Ok fin.
+  Hypothesis Hr : reach cp c p false (prog_size p) fin (main_name p) [] = Ok q.
+  Hypothesis Hres : resolvable p = true.
+  Hypothesis Hocc : forall fn f, prog_file p fn = Some f -> forall t, In t (file_occs f) -> occ_good p fn f t.
+  Hypothesis Hkinds : forall fn f k s, prog_file p fn = Some f -> In s (sl_list k f) -> sl_category s = k.
+
+  Let def_sub := q_def_sub' matches cp c p q fin Hwf Hm Hr Hres Hocc Hkinds.
+  Let always G gq k := def_always matches cp c p q fin Hwf Hm Hr Hres Hocc Hkinds G gq k.
+
+  (* the enum a definition of a file of the output stands for is the same in both programs *)
+  Lemma enum_values_of_q G gq e : In (G, gq) q -> enum_values_of q G e = enum_values_of p G e.
+  Proof.
+    intros Hq. destruct (q_entry cp c p q fin Hr _ _ Hq) as [pg [Hpg Htf]].
+    destruct (denote_fuel_S p) as [kp Ep]. destruct (denote_fuel_S q) as [kq Eq].
+    unfold enum_values_of, denote_def.
+    destruct (def_of p G e) as [[tgt| |vs|s|]|] eqn:Dp.
+    - (* typedef *)
+      assert (def_of q G e = Some (DkTypedef tgt)) as Dq
+        by (apply (always G gq (DkTypedef tgt) Hq); [intros; discriminate | discriminate | exact Dp]).
+      rewrite Dq.
+      destruct (typedef_entry p _ _ _ _ Hpg Dp) as [td [Htd [Ea Et]]].
+      destruct (typedef_occ matches cp c p fin Hwf Hm _ _ _ Hpg Htd) as [Ho Hmk].
+      destruct (builtin_category tgt) as [cb|] eqn:Bn.
+      + rewrite Ep, Eq. rewrite !(denote_builtin _ _ _ _ _ Bn). reflexivity.
+      + (* the typedef's type is accepted in the input: it denotes something *)
+        pose proof (p_file_ok matches cp c p q fin Hwf Hm Hr Hres Hocc Hkinds _ _ Hpg) as Hok. unfold file_ok in Hok.
+        rewrite !andb_true_iff in Hok. destruct Hok as [[[[_ Hty] _] _] _]. rewrite forallb_forall in Hty.
+        assert (In (td_type td) (file_top_occs pg)) as Htop
+          by (unfold file_top_occs; apply in_or_app; left; apply in_map; exact Htd).
+        specialize (Hty _ Htop). destruct (td_type td) as [n0 k0 v0 c0 an0 cat0 r0 t0] eqn:Etd. cbn [ty_name] in Et. subst n0.
+        cbn [ty_ok] in Hty. rewrite Bn in Hty. destruct k0; [discriminate|]. destruct v0; [discriminate|].
+        apply denotes_b_iff in Hty. destruct Hty as [d0 Hd0].
+        pose proof (denote_complete _ _ _ _ Hd0) as Rp.
+        assert (name_denotes q G tgt d0) as Hq0.
+        { eapply (den matches cp c p q fin Hwf Hm Hr Hres Hocc Hkinds);
+            [exact Rp | exact Hq | exact Hpg | exact Ho | reflexivity | exact Hmk]. }
+        pose proof (denote_complete _ _ _ _ Hq0) as Rq. rewrite Rp, Rq.
+        destruct d0 as [cb|efn x|efn x s]; try reflexivity.
+        destruct (proj2 (denotes_enum_def q) _ _ _ Hq0 efn x eq_refl) as [vs Dv].
+        rewrite Dv. rewrite (def_sub _ _ _ Dv). reflexivity.
+    - (* constant *)
+      assert (def_of q G e = Some DkConst) as Dq
+        by (apply (always G gq DkConst Hq); [intros; discriminate | discriminate | exact Dp]).
+      rewrite Dq. reflexivity.
+    - (* enum *)
+      assert (def_of q G e = Some (DkEnum vs)) as Dq
+        by (apply (always G gq (DkEnum vs) Hq); [intros; discriminate | discriminate | exact Dp]).
+      rewrite Dq, Dp, Dq. reflexivity.
+    - destruct (def_of q G e) as [k'|] eqn:Dq; [|reflexivity]. apply def_sub in Dq. rewrite Dp in Dq. injection Dq as <-. reflexivity.
+    - destruct (def_of q G e) as [k'|] eqn:Dq; [|reflexivity]. apply def_sub in Dq. rewrite Dp in Dq. injection Dq as <-. reflexivity.
+    - destruct (def_of q G e) as [k'|] eqn:Dq; [|reflexivity]. apply def_sub in Dq. congruence.
+  Qed.
+
+  Lemma enum_value_count_q G gq e v : In (G, gq) q -> enum_value_count q G e v = enum_value_count p G e v.
+  Proof. intros Hq. unfold enum_value_count. rewrite (enum_values_of_q _ _ _ Hq). reflexivity. Qed.
+
+  (* a file without constants, enums and typedefs explains no identifier *)
+  Lemma no_cet_counts gn tf : prog_file p gn = Some tf -> has_enum_const_typedef tf = false ->
+    (forall v, const_count p gn v = 0) /\ (forall e v, enum_value_count p gn e v = 0).
+  Proof.
+    intros Htf Hc. unfold has_enum_const_typedef in Hc. apply negb_false_iff in Hc.
+    apply andb_true_iff in Hc. destruct Hc as [Hc Ht]. apply andb_true_iff in Hc. destruct Hc as [Hco Hen].
+    destruct (f_constants tf) eqn:E1; [|discriminate]. destruct (f_enums tf) eqn:E2; [|discriminate].
+    destruct (f_typedefs tf) eqn:E3; [|discriminate].
+    assert (forall a k, def_of p gn a = Some k -> (exists s, k = DkStruct s) \/ k = DkService) as Hk.
+    { intros a k Hd. unfold def_of in Hd. rewrite Htf in Hd. apply lookup_In in Hd. unfold file_defs in Hd.
+      rewrite E1, E2, E3 in Hd. cbn [map app] in Hd. apply in_app_iff in Hd. destruct Hd as [H|H].
+      - apply in_map_iff in H. destruct H as [s [[= <- <-] _]]. left. eauto.
+      - apply in_map_iff in H. destruct H as [s [[= <- <-] _]]. right. reflexivity. }
+    split.
+    - intros v. unfold const_count. destruct (def_of p gn v) as [k|] eqn:D; [|reflexivity].
+      destruct (Hk _ _ D) as [[s ->]| ->]; reflexivity.
+    - intros e v. unfold enum_value_count, enum_values_of, denote_def.
+      destruct (def_of p gn e) as [k|] eqn:D; [|reflexivity].
+      destruct (Hk _ _ D) as [[s ->]| ->]; reflexivity.
+  Qed.
+End Idents2.
+
+
+(* ==================================================================== *)
+Definition inc_key (inc : include) : bytes * option bytes := (idl_prefix (in_path inc), in_ref inc).
+
+Lemma sum_incs_filtered (cntp cntq : bytes -> nat) pre (keepf : nat * include -> res bool) :
+  forall l incs, filter_res keepf l = Ok incs ->
+    (forall x, In x l -> keepf x = Ok false -> forall gn, in_ref (snd x) = Some gn -> cntp gn = 0) ->
+    (forall x, In x l -> keepf x = Ok true -> forall gn, in_ref (snd x) = Some gn -> cntq gn = cntp gn) ->
+    sum_incs cntq pre (map inc_key (map snd incs)) = sum_incs cntp pre (map inc_key (map snd l)).
+Proof.
+  induction l as [|x l IH]; intros incs H H0 H1; cbn in H.
+  - injection H as <-. reflexivity.
+  - apply TrimFacts.bind_ok in H. destruct H as [b [Hb H]]. apply TrimFacts.bind_ok in H. destruct H as [r' [Hr H]]. injection H as <-.
+    specialize (IH _ Hr (fun y Hy => H0 y (or_intror Hy)) (fun y Hy => H1 y (or_intror Hy))).
+    cbn [map sum_incs]. unfold inc_key at 2. destruct b.
+    + cbn [map sum_incs]. unfold inc_key at 1. rewrite IH.
+      destruct (beqb (idl_prefix (in_path (snd x))) pre); [|reflexivity].
+      destruct (in_ref (snd x)) as [gn|] eqn:Er; [|reflexivity].
+      rewrite (H1 x (or_introl eq_refl) Hb gn Er). reflexivity.
+    + rewrite IH. destruct (beqb (idl_prefix (in_path (snd x))) pre); [|reflexivity].
+      destruct (in_ref (snd x)) as [gn|] eqn:Er; [|reflexivity].
+      rewrite (H0 x (or_introl eq_refl) Hb gn Er). reflexivity.
+Qed.
+
+Lemma cv_idents_ok_ext ok1 ok2 : (forall s, ok1 s = ok2 s) -> forall c, cv_idents_ok ok1 c = cv_idents_ok ok2 c.
+Proof.
+  intros He. induction c using const_value_ind'; cbn [cv_idents_ok]; try reflexivity.
+  - rewrite He. reflexivity.
+  - induction H as [|x l Hx _ IHl]; cbn; [reflexivity|]. rewrite Hx, IHl. reflexivity.
+  - induction H as [|[k v] l [Hk Hv] _ IHl]; cbn; [reflexivity|]. cbn in Hk, Hv. rewrite Hk, Hv, IHl. reflexivity.
+Qed.
+
+Section Idents3.
+  Variable matches : bytes -> bytes -> bool.
+  Variable cp : bytes -> bool.
+  Variable c : cfg.
+  Variable p q : program.
+  Variable fin : mstate.
+  Hypothesis Hwf : wf p.
+  Hypothesis Hm : mark_ast matches cp c p (prog_size p) = Ok fin.
+  Hypothesis Hr : reach cp c p false (prog_size p) fin (main_name p) [] = Ok q.
+  Hypothesis Hres : resolvable p = true.
+  Hypothesis Hocc : forall fn f, prog_file p fn = Some f -> forall t, In t (file_occs f) -> occ_good p fn f t.
+  Hypothesis Hkinds : forall fn f k s, prog_file p fn = Some f -> In s (sl_list k f) -> sl_category s = k.
+
+  Let ccq := const_count_q matches cp c p q fin Hwf Hm Hr Hres Hocc Hkinds.
+  Let evq := enum_value_count_q matches cp c p q fin Hwf Hm Hr Hres Hocc Hkinds.
+
+  (* the includes of a file of the output, as the kept ones of the input file *)
+  Lemma q_incs F qf pf : In (F, qf) q -> prog_file p F = Some pf ->
+    exists incs, filter_res (keep_include p fin F) (indexed (f_includes pf)) = Ok incs /\
+                 file_incs qf = map inc_key (map snd incs) /\
+                 (forall x, In x incs -> forall gn, in_ref (snd x) = Some gn -> exists gq, In (gn, gq) q).
+  Proof.
+    intros Hq Hpf. destruct (q_entry cp c p q fin Hr _ _ Hq) as [pf' [Hpf' Htf]]. rewrite Hpf in Hpf'. injection Hpf' as <-.
+    pose proof Htf as Htf0. unfold trim_file in Htf. apply TrimFacts.bind_ok in Htf. destruct Htf as [incs [Hi Htf]].
+    exists incs. split; [exact Hi|]. split.
+    - injection Htf as <-. unfold file_incs. cbn [f_includes]. rewrite !map_map. reflexivity.
+    - intros x Hx gn Hg.
+      pose proof (reach_closed cp c p false _ _ _ _ _ Hr _ Hq) as [[]|Hc].
+      assert (In (Include (in_path (snd x)) (in_ref (snd x)) None) (f_includes qf)) as Hin.
+      { injection Htf as <-. cbn [f_includes]. apply in_map_iff. exists x. auto. }
+      specialize (Hc _ gn Hin Hg). apply in_map_iff in Hc. destruct Hc as [[g' gq] [E Hc]]. cbn in E. subst. eauto.
+  Qed.
+
+  Lemma sum_q F qf pf (cntp cntq : bytes -> nat) pre :
+    In (F, qf) q -> prog_file p F = Some pf ->
+    (forall gn gq, In (gn, gq) q -> cntq gn = cntp gn) ->
+    (forall gn tf, prog_file p gn = Some tf -> has_enum_const_typedef tf = false -> cntp gn = 0) ->
+    sum_incs cntq pre (file_incs qf) = sum_incs cntp pre (file_incs pf).
+  Proof.
+    intros Hq Hpf Heq Hzero. destruct (q_incs _ _ _ Hq Hpf) as [incs [Hi [-> Htg]]].
+    assert (file_incs pf = map inc_key (map snd (indexed (f_includes pf)))) as -> by (rewrite map_snd_indexed; reflexivity).
+    eapply sum_incs_filtered; [exact Hi | |].
+    - intros x _ Hk gn Hg. unfold keep_include, include_target in Hk. rewrite Hg in Hk.
+      destruct (prog_file p gn) as [tf|] eqn:Htf; [|discriminate]. injection Hk as Hk.
+      apply orb_false_iff in Hk. eapply Hzero; [exact Htf | tauto].
+    - intros x Hx Hk gn Hg. eapply filter_res_spec in Hi. 
+      assert (In x incs) as Hxin by (apply Hi; split; assumption).
+      destruct (Htg _ Hxin _ Hg) as [gq Hgq]. eapply Heq; eauto.
+  Qed.
+
+  Lemma explanations_q F qf pf s : In (F, qf) q -> prog_file p F = Some pf ->
+    explanations q F qf s = explanations p F pf s.
+  Proof.
+    intros Hq Hpf. unfold explanations. induction (split_value s) as [|ss sss IH]; cbn [fold_right]; [reflexivity|].
+    rewrite IH. f_equal. unfold alt_count.
+    destruct ss as [|a [|b [|d [|? ?]]]]; try reflexivity.
+    - eapply ccq; eauto.
+    - rewrite (evq _ _ _ _ Hq). f_equal.
+      eapply sum_q; [exact Hq | exact Hpf | intros gn gq Hg; eapply ccq; eauto|].
+      intros gn tf Htf Hc. apply (no_cet_counts p _ _ Htf Hc).
+    - eapply sum_q; [exact Hq | exact Hpf | intros gn gq Hg; eapply evq; eauto|].
+      intros gn tf Htf Hc. apply (no_cet_counts p _ _ Htf Hc).
+  Qed.
+
+  Lemma ident_ok_q F qf s : In (F, qf) q -> ident_ok q F s = ident_ok p F s.
+  Proof.
+    intros Hq. destruct (q_entry cp c p q fin Hr _ _ Hq) as [pf [Hpf _]].
+    unfold ident_ok. rewrite (q_file cp c p q fin Hr _ _ Hq), Hpf, (explanations_q _ _ _ _ Hq Hpf). reflexivity.
+  Qed.
+End Idents3.
+
+
+(* ==================================================================== *)
+Section Idents4.
+  Variable matches : bytes -> bytes -> bool.
+  Variable cp : bytes -> bool.
+  Variable c : cfg.
+  Variable p q : program.
+  Variable fin : mstate.
+  Hypothesis Hwf : wf p.
+  Hypothesis Hm : mark_ast matches cp c p (prog_size p) = Ok fin.
+  Hypothesis Hr : reach cp c p false (prog_size p) fin (main_name p) [] = Ok q.
+  Hypothesis Hres : resolvable p = true.
+  Hypothesis Hocc : forall fn f, prog_file p fn = Some f -> forall t, In t (file_occs f) -> occ_good p fn f t.
+  Hypothesis Hkinds : forall fn f k s, prog_file p fn = Some f -> In s (sl_list k f) -> sl_category s = k.
+
+  Lemma kept_fields F qf pf fd : trim_file cp c p fin F pf = Ok qf -> In fd (file_fields qf) -> In fd (file_fields pf).
+  Proof.
+    intros Htf Hin. unfold file_fields in *. rewrite in_app_iff in *. destruct Hin as [Hin|Hin].
+    - left. apply in_flat_map' in Hin. destruct Hin as [s [Hs Hfd]]. apply in_flat_map'. exists s. split; [|exact Hfd].
+      eapply sub_In; [eapply struct_likes_sub; exact Htf | exact Hs].
+    - right. apply in_flat_map' in Hin. destruct Hin as [sv [Hsv Hfd]].
+      unfold trim_file in Htf. apply TrimFacts.bind_ok in Htf. destruct Htf as [incs [_ Htf]]. injection Htf as <-.
+      cbn [f_services] in Hsv. apply in_map_iff in Hsv. destruct Hsv as [[i s0] [<- Hsv]].
+      apply filter_In in Hsv. destruct Hsv as [Hi _]. apply indexed_In in Hi.
+      apply in_flat_map'. exists s0. split; [eapply nth_error_In; exact Hi|].
+      unfold service_fields in *. apply in_flat_map' in Hfd. destruct Hfd as [fn [Hfn Hfd]].
+      apply in_flat_map'. exists fn. split; [|exact Hfd].
+      unfold trim_service in Hfn. cbn [fst snd] in Hfn.
+      assert (In fn (if filtering c
+                     then map snd (filter (fun jf => marked fin (NFunction F i (fst jf))) (indexed (sv_functions s0)))
+                     else sv_functions s0)) as Hfn' by (destruct (in_ext fin F i); exact Hfn).
+      destruct (filtering c); [|exact Hfn'].
+      apply in_map_iff in Hfn'. destruct Hfn' as [[j fn'] [E Hj]]. cbn in E. subst fn'.
+      apply filter_In in Hj. destruct Hj as [Hj _]. apply indexed_In in Hj. eapply nth_error_In; eauto.
+  Qed.
+
+  (* every identifier used as a value in the output keeps exactly one explanation *)
+  Theorem trimmed_idents_ok F qf :
+    In (F, qf) q -> forallb (cv_idents_ok (ident_ok q F)) (file_top_const_values qf) = true.
+  Proof.
+    intros Hq. destruct (q_entry cp c p q fin Hr _ _ Hq) as [pf [Hpf Htf]].
+    pose proof (p_file_ok matches cp c p q fin Hwf Hm Hr Hres Hocc Hkinds _ _ Hpf) as Hok. unfold file_ok in Hok.
+    rewrite !andb_true_iff in Hok. destruct Hok as [_ Hid]. rewrite forallb_forall in Hid.
+    apply forallb_forall. intros cv Hcv.
+    rewrite (cv_idents_ok_ext _ _ (fun s => ident_ok_q matches cp c p q fin Hwf Hm Hr Hres Hocc Hkinds F qf s Hq)).
+    apply Hid. unfold file_top_const_values in *. rewrite in_app_iff in *.
+    destruct (trimmed_shape _ _ _ _ _ _ _ Htf) as [_ [E2 _]].
+    destruct Hcv as [Hcv|Hcv]; [left; rewrite <- E2; exact Hcv|]. right.
+    apply in_flat_map' in Hcv. destruct Hcv as [fd [Hfd Hd]]. apply in_flat_map'. exists fd.
+    split; [eapply kept_fields; eauto | exact Hd].
+  Qed.
+
+  (* every configuration: only the base services remain as a hypothesis on the output *)
+  Theorem trim_resolves_given_bases :
+    (forall F qf, In (F, qf) q -> forallb (base_ok q F qf) (f_services qf) = true) ->
+    resolvable q = true /\ exists r, Idl.Resolve.resolve_program q = Idl.Resolve.Ok r.
+  Proof.
+    intros Hbase.
+    apply (trim_resolves_given_bases_and_idents matches cp c p q fin Hwf Hm Hr Hres Hocc Hkinds Hbase).
+    apply trimmed_idents_ok.
+  Qed.
+
+  (* without a method filter: no hypothesis on the output is left *)
+  Theorem trim_resolves_without_filter :
+    filtering c = false ->
+    (forall fn f s, prog_file p fn = Some f -> In s (f_services f) ->
+       match split_type (sv_extends s) with
+       | [pre; m] => exists i gn, spec_include p is_service_kind pre m (file_incs f) 0 = Some (i, gn) /\
+                                  sv_ref s = Some (Ref m (Z.of_nat i))
+       | _ => sv_ref s = None
+       end) ->
+    resolvable q = true /\ exists r, Idl.Resolve.resolve_program q = Idl.Resolve.Ok r.
+  Proof.
+    intros Hnf Hsv.
+    apply (trim_resolves_no_filter matches cp c p q fin Hwf Hm Hr Hres Hocc Hkinds Hnf Hsv).
+    apply trimmed_idents_ok.
+  Qed.
+End Idents4.
